@@ -262,7 +262,7 @@ def run_surrogate_bin(rec, F, cnt):
         cnt['compared'] += 1
         a_ = np.concatenate([np.ravel(np.asarray(v, dtype=float)) for v in (a if isinstance(a, tuple) else (a,))])
         b_ = np.concatenate([np.ravel(np.asarray(v, dtype=float)) for v in (b if isinstance(b, tuple) else (b,))])
-        if a_.shape != b_.shape or not np.array_equal(a_, b_):
+        if a_.shape != b_.shape or not np.array_equal(a_, b_, equal_nan=True):
             F.add('C20.untrained_passthrough', f'untrained BinarySurrogate.{name} returned {a_.tolist()[:6]}, the thermodynamics object returns {b_.tolist()[:6]}', getter=name, surrogate='binary')
     # ---- training reproduces the training data
     Ts = [T, T + 50] if rec['twoT'] else T
